@@ -25,7 +25,7 @@ def run(rep, tier):
     for v in H.VARIANTS:
         targets += [f"{parts}.check_frames_{v}_p{j}" for j in range(H.NK_EXT)]
         targets.append(f"{parts}.check_vars_{v}")
-    twin = [f"{MOD}.twin_two_yields_then_error", f"{MOD}.check_ws_history"]
+    twin = [f"{MOD}.twin_two_yields_then_error", f"{MOD}.check_ws_history", f"{MOD}.check_ws_constructed_client"]
     MODM = "harness.C13_method"
     twin += [f"{MODM}.check_generated_subscription_snake", f"{MODM}.check_generated_subscription_plain", f"{MODM}.twin_generated_clash_two_payloads", f"{MODM}.check_real_server_handshake"]
     t = 300 if tier == "quick" else 2400
